@@ -743,6 +743,45 @@ func buildWriterRouter(cfg wCfg, cur **wRun) *rux.Router {
 	return r
 }
 
+// writerBuiltinOracle: the answers rux gives itself (the built-in 404 handler, the built-in 405 handler for OPTIONS -
+// it only sets Allow and records 200 - and for another method) commit the header exactly once, before the body, on a
+// router with HandleMethodNotAllowed, with and without a global middleware that does nothing.
+func writerBuiltinOracle(cfg wCfg) (out []string) {
+	for _, withGlobal := range []bool{false, true} {
+		r := rux.New(rux.HandleMethodNotAllowed)
+		if withGlobal {
+			r.Use(func(c *rux.Context) { c.Next() })
+		}
+		r.GET("/p", func(c *rux.Context) { c.WriteString("p") })
+		for _, rq := range [][3]string{{"OPTIONS", "/p", "200"}, {"DELETE", "/p", "405"}, {"GET", "/none", "404"}, {"OPTIONS", "/none", "404"}} {
+			rec := newRecWriter(cfg.ct)
+			func() {
+				defer func() { _ = recover() }()
+				r.ServeHTTP(wrapRec(rec, cfg.wkind), httptest.NewRequest(rq[0], rq[1], nil))
+			}()
+			heads, firstBody, firstHead := 0, -1, -1
+			for i, e := range rec.log {
+				switch e.kind {
+				case 'h':
+					heads++
+					if firstHead < 0 {
+						firstHead = i
+					}
+				case 'w', 'f':
+					if firstBody < 0 {
+						firstBody = i
+					}
+				}
+			}
+			log := rec.logString()
+			if heads != 1 || (firstBody >= 0 && firstBody < firstHead) || !strings.HasPrefix(log, "wh:"+rq[2]) {
+				out = append(out, fmt.Sprintf("C08 one commit: the built-in answer to %s %s (global middleware: %v) reached the underlying writer as %s (want exactly one WriteHeader(%s), first)", rq[0], rq[1], withGlobal, log, rq[2]))
+			}
+		}
+	}
+	return
+}
+
 func (writerEngine) Run(ops []string) (ans []string, oracle []string) {
 	ans = make([]string, len(ops))
 	cfg := defaultWCfg()
@@ -808,6 +847,7 @@ func (writerEngine) Run(ops []string) (ans []string, oracle []string) {
 			cfg = c
 			router = buildWriterRouter(cfg, &cur)
 			ans[i] = "ok"
+			oracle = append(oracle, writerBuiltinOracle(cfg)...)
 		case "end":
 			// `end hf`: only for a chain of one handler on a router without hooks (there is no router in that entry)
 			hfOK := len(f) == 2 && f[1] == "hf" && cfg.k == 1 && !cfg.onPanic && !cfg.onError
